@@ -50,7 +50,8 @@ Changed(tr1, tr2) == { p \in PathsOf(tr1) \cup PathsOf(tr2) :
                          \/ BlobAt(tr1, p) # BlobAt(tr2, p) }
 
 \* ---- ExportAbs along the observation
-Pairs(c) == { <<Loc(c.dir, n), T(n).ident>> : n \in { n \in Closure(c) : Exportable(n) /\ ~IsErr(Loc(c.dir, n)) } }
+\* (a type whose file cannot be rendered - U.decls has no declaration for it - is judged by Blocked, not by content)
+Pairs(c) == { <<Loc(c.dir, n), T(n).ident>> : n \in { n \in Closure(c) : Exportable(n) /\ ~IsErr(Loc(c.dir, n)) /\ T(n).ident \in DOMAIN U.decls } }
 Targets(c) == { pr[1] : pr \in Pairs(c) }
 
 \* a declaration is visibly in a file if all its blocks occur there, contiguously
